@@ -7,7 +7,7 @@ From FlacWriters Require Import Params_proofs.
 From FlacReaders Require Readers Spec Ser RNum Seek.
 From FlacWriters Require Import Lists_proofs Writers_proofs.
 From FlacWriters Require Import Bytes_proofs.
-From FlacE2E Require Import Bridge E2E SampleE2E Success ChannelE2E ByteE2E ByteSuccess ChannelSuccess ReadBridge ReadersE2E.
+From FlacE2E Require Import Bridge E2E SampleE2E Success ChannelE2E ByteE2E ByteSuccess ChannelSuccess ReadBridge ReadersE2E InterruptedE2E.
 Import ListNotations.
 Open Scope N_scope.
 
@@ -309,6 +309,49 @@ Theorem C02_channel_writer_file_valid : forall o L md5, (forall l, length (md5 l
     stack blocks (repeat [] (N.to_nat ch)) = all.
 Proof. exact channel_writer_file_valid. Qed.
 
+(* C14 across the areas.  Whatever the Encoder model has put on the underlying stream when the run is interrupted before
+   finalize — the provisional metadata region (STREAMINFO with the declared or zero total, placeholder SEEKTABLE,
+   padding), the frames of the blocks encoded so far, and the frame of the next block cut at ANY byte — opens with the
+   stream decoder model and decodes to exactly the blocks encoded so far, ending with an end or an error, never a panic *)
+Theorem C14_end_to_end_interrupted : forall o L (md5 : list N -> list N), (forall l, length (md5 l) = 16%nat) ->
+  forall p rate bps wo ch total e0 bl e b gb m,
+  encoder_new p [] wo rate bps ch total = Ok e0 ->
+  reach o L p rate bps e0 bl e ->
+  let si := conv_si (e_si e0) in
+  Forall (fun x => FlacCodec.Enc_proofs.block_ok si bps x /\ 14 < FlacCodec.Enc.block_len x) (bl ++ [b]) ->
+  N.of_nat (length bl) + 1 <= FlacCodec.Header.MAX_FRAME_NUMBER + 1 ->
+  FlacCodec.Enc.enc_frame_bytes o L rate bps (N.of_nat (length bl)) b = Some gb -> (m < length gb)%nat ->
+  match total with Some T => FlacCodec.Enc_proofs.blocks_samples bl + FlacCodec.Enc.block_len b <= T | None => True end ->
+  match FlacCodec.Stream.dec_stream (stream e ++ firstn m gb) with
+  | Some (si', out, en) => si' = si /\ out = map FlacCodec.Stream.interleave_frame bl /\ FlacCodec.Progress.is_end_panic en = false
+  | None => False
+  end.
+Proof. exact e2e_interrupted. Qed.
+
+(* ... and for a FlacSampleWriter model run interrupted after any sequence of write calls: the blocks on the stream are
+   the whole blocks of everything written so far *)
+Theorem C14_sample_writer_interrupted : forall o L p rate bps wo ch total w chunks w',
+  options_wf wo ->
+  sample_new p [] wo rate bps ch total = Ok w ->
+  fold_res (sample_write (encB o L rate bps) p) w chunks = Ok w' ->
+  forallb (FlacCodec.Wf.fits bps) (concat chunks) = true ->
+  N.of_nat (length (concat chunks)) < 2 ^ 36 ->
+  let si := conv_si (e_si (sw_enc w)) in
+  let K := N.to_nat (ch * o_block_size wo) in
+  exists bl,
+    concat (map FlacCodec.Stream.interleave_frame bl) = firstn (K * (length (concat chunks) / K)) (concat chunks) /\
+    forall b gb m,
+      FlacCodec.Enc_proofs.block_ok si bps b -> FlacCodec.Enc.block_len b = o_block_size wo ->
+      FlacCodec.Enc.enc_frame_bytes o L rate bps (N.of_nat (length bl)) b = Some gb -> (m < length gb)%nat ->
+      match si_total (e_si (sw_enc w)) with Some t => FlacCodec.Enc_proofs.blocks_samples bl + FlacCodec.Enc.block_len b <= t | None => True end ->
+      match FlacCodec.Stream.dec_stream (stream (sw_enc w') ++ firstn m gb) with
+      | Some (si', out, en) => si' = si /\ out = map FlacCodec.Stream.interleave_frame bl /\ FlacCodec.Progress.is_end_panic en = false
+      | None => False
+      end.
+Proof. exact sample_writer_interrupted. Qed.
+
+Print Assumptions C14_end_to_end_interrupted.
+Print Assumptions C14_sample_writer_interrupted.
 Print Assumptions C02_byte_writer_file_valid.
 Print Assumptions C02_channel_writer_file_valid.
 Print Assumptions C02_sample_writer_file_valid.
